@@ -157,7 +157,8 @@ fn inject_case(idx: u64, seed: u64) -> Option<(String, String)> {
 /// The files of one case: (label, [(id, content)]).
 pub fn make_case(seed: u64, tier: Tier, mode: &str, stage: &str, idx: u64) -> Option<(String, Vec<(String, String)>)> {
     let mut rng = Rng::for_case(seed, stage, idx);
-    let ids = ["a", "b", "c", "d", "e", "f", "a", "b"];
+    let long_id = "i".repeat(300);
+    let ids = ["a", "b", "c", "d", "e", "f", "a", "b", "", " ", "a ", "A", "é", long_id.as_str(), "../a", "a\0b"];
     let multi = |rng: &mut Rng, f: &mut dyn FnMut(&mut Rng) -> String| -> Vec<(String, String)> {
         let n = match rng.below(10) {
             0..=5 => 1,
